@@ -495,5 +495,40 @@ Definition run_case_gen (legacy : bool) (c : case) : list (list Z) :=
   let '(cfg, tracking, ws, ops) := c in
   obs_history legacy (init_state cfg tracking ws) ops.
 
-Definition run_case (c : case) : list (list Z) := run_case_gen false c.
-Definition run_case_legacy (c : case) : list (list Z) := run_case_gen true c.
+(* Canonical (lossless) run-length form of an observation list, applied to both
+   sides of the comparison: the rows are cut into segments after every [-4; _]
+   row (the last row of one aggregated run_vote call); k > 1 consecutive equal
+   segments are written once, followed by the row [-6; k].  No other row starts
+   with -6.  (Histories that fill the 1000-entry result history repeat one call
+   a thousand times.) *)
+Definition zrow_eqb (a b : list Z) : bool :=
+  (length a =? length b)%nat && forallb (fun xy => (fst xy =? snd xy)%Z) (combine a b).
+Definition zrows_eqb (a b : list (list Z)) : bool :=
+  (length a =? length b)%nat && forallb (fun xy => zrow_eqb (fst xy) (snd xy)) (combine a b).
+
+Definition ends_call (row : list Z) : bool :=
+  match row with x :: _ => (x =? -4)%Z | [] => false end.
+
+Fixpoint segments (cur : list (list Z)) (o : list (list Z)) : list (list (list Z)) :=
+  match o with
+  | [] => match cur with [] => [] | _ => [rev cur] end
+  | r :: rest => if ends_call r then rev (r :: cur) :: segments [] rest else segments (r :: cur) rest
+  end.
+
+Definition emit (seg : list (list Z)) (n : Z) : list (list Z) :=
+  if (n =? 1)%Z then seg else seg ++ [[(-6)%Z; n]].
+
+Fixpoint rle (prev : list (list Z)) (n : Z) (segs : list (list (list Z))) : list (list Z) :=
+  match segs with
+  | [] => emit prev n
+  | s :: rest => if zrows_eqb s prev then rle prev (n + 1)%Z rest else emit prev n ++ rle s 1%Z rest
+  end.
+
+Definition compress (o : list (list Z)) : list (list Z) :=
+  match segments [] o with
+  | [] => []
+  | s :: rest => rle s 1%Z rest
+  end.
+
+Definition run_case (c : case) : list (list Z) := compress (run_case_gen false c).
+Definition run_case_legacy (c : case) : list (list Z) := compress (run_case_gen true c).
